@@ -614,3 +614,16 @@ Print Assumptions C16_end_to_end_success.
 Print Assumptions C16_end_to_end_is_front_end.
 Print Assumptions C16_end_to_end_nonvacuous.
 Print Assumptions C16_end_to_end_rejection_nonvacuous.
+
+(** Source tie (regenerated on every run): the AVL key on the STRING level.  With the format read from accounting_engine.py
+    (Model/GeneratedTie.v, fragment avl_key) and Python's `str` order ([str_leb]), keys of one timestamp compare as the numbers
+    their ids spell whenever the ids are decimal and have at most `width` digits (row 9 before row 10: the fill goes in FRONT of
+    the id), and each of them is <= the max-disambiguator key of that timestamp, so no lot of the event's own instant is missed
+    by the lookup, whatever the number of rows of the input (Proofs/AvlKeyStr.v; no calendar reasoning involved). *)
+From RP2V Require Import Model.GeneratedTie Model.AvlKeyGen Proofs.AvlKeyStr.
+Theorem C16_source_tie_avl_key_strings :
+  (forall t a b, is_digits a -> is_digits b -> (length a <= Z.to_nat gen_ak_width)%nat -> (length b <= Z.to_nat gen_ak_width)%nat ->
+     str_leb (avl_key_gen t a) (avl_key_gen t b) = (str_num a <=? str_num b)) /\
+  (forall t a, is_digits a -> (length a <= Z.to_nat gen_ak_width)%nat -> str_leb (avl_key_gen t a) (avl_lookup_key_gen t) = true).
+Proof. exact avl_key_strings_gen_agree. Qed.
+Print Assumptions C16_source_tie_avl_key_strings.
